@@ -16,6 +16,48 @@ CHECKS = {
         note='bounded model (small-scope); behaviours sampled by seeded TLC simulation; protocol assumption: a failed '
              'storage call is followed by tpc_abort',
         design='6/C04'),
+    'C03': dict(
+        technique='TLA+ spec ZStorage (NoLostUpdate, StoredIsMerge) model-checked by TLC; conflict-heavy TLC behaviours '
+                  'replayed on FileStorage and MappingStorage, outcome of every store/checkCurrent compared',
+        text='TLC checks on the specification that every committed data revision has as base the tid of the immediately '
+             'preceding revision or is a merge; conformance: for behaviours in which clients store with every serial they '
+             'could hold, the real storages must raise ConflictError/ReadConflictError exactly when the specification '
+             'does and the resulting committed history must equal the specification history.',
+        note='storage-level; demo storage in C16; connection-level readCurrent and committer schedules in C02/C11 machinery',
+        design='6/C03'),
+    'C05': dict(
+        technique='TLA+ spec ZStorage action properties (AbortRestores, WrongTxnNoEffect, NextCanBegin) model-checked by '
+                  'TLC; TLC behaviours with aborts at every phase replayed, query table and data-file bytes compared',
+        text='TLC checks that an abort or any refused call leaves history and every answer unchanged and frees the commit '
+             'lock; conformance: behaviours with aborts after begin / stores / refused calls / vote, over-long metadata, '
+             'foreign-transaction calls are replayed: query table equal to the table before begin, data file byte-identical, '
+             'following transactions commit as specified.',
+        note='low-level write failures are enumerated by the file-layer part (added with ZFile); blobs in C13',
+        design='6/C05'),
+    'C06': dict(
+        technique='TLA+ transcription of FileStorage._transactionalUndoRecord in ZStorage, UndoSemantics checked by TLC; '
+                  'undo-heavy TLC behaviours replayed on FileStorage',
+        text='TLC checks UndoSemantics (objects written by the undone transaction read as just before it, or carry the '
+             'class merge; everything else untouched; failure changes nothing) on the specification; conformance: undo() '
+             'on the real FileStorage must return the same oids or raise UndoError exactly as specified and all queries '
+             'must equal the specification table after commit and after reopen.',
+        note='storage API level; DB.undo visibility across connections belongs to the MVCC machinery',
+        design='6/C06'),
+    'C10': dict(
+        technique='TLA+ spec ZStorage with uninterpreted Merge (StoredIsMerge) model-checked by TLC; behaviours replayed '
+                  'with a resolver class that returns a term embedding its three arguments',
+        text='The stored record read back is structurally Merge(old, committed, new) with the union of references; TLC '
+             'checks StoredIsMerge; conformance over classes plain / resolving / failing / not importable / declining on '
+             'store and undo paths, tpc_vote returning exactly the resolved oids.',
+        note='file storage paths; demo path in C16',
+        design='6/C10'),
+    'C20': dict(
+        technique='TLA+ spec ZStorage action property OidFresh model-checked by TLC; allocation-heavy TLC behaviours '
+                  'replayed with an independent freshness monitor on every new_oid',
+        text='new_oid of the real storages must return the oid the specification returns and the monitor requires it to be '
+             'new for the session and absent from the storage, through stores/restores of arbitrary oids, aborts, reopen.',
+        note='file and mapping storages; demo layers in C16; concurrent allocators with the scheduler part',
+        design='6/C20'),
 }
 
 NOT_APPLICABLE = []
